@@ -7,7 +7,7 @@ from . import options as vopt
 NOT_WS = re.compile(r"^(mod_|cmt_|sp_cmt_cpp_|string_replace_tab_chars|disable_processing_|enable_processing_|"
                     r"processing_cmt_as_regex|pp_\w*ignore|pp_warn_unbalanced_if|tok_split_gte|utf8_|input_tab_size|"
                     r"enable_digraphs|string_escape_char|use_|warn_level_tabs_found|debug_|align_keep_extra_space|"
-                    r"nl_remove_extra_newlines|newlines$|include_category_|indent_cmt_with_tabs|"
+                    r"nl_remove_extra_newlines|newlines$|include_category_|"
                     r"output_trailspace|indent_single_newlines|indent_cs_delegate_body|pp_unbalanced_if_action)")
 # count options guarded by nl_max (too_big_for_nl_max): kept small so that they never conflict
 _REG = {}
